@@ -264,6 +264,7 @@ SEQ_REACH = {
     "VH_SEQ_V1ProofAndExpirySameBlock": ["end"],
     "VH_SEQ_MinerPayouts": ["accepted"],
     "VH_SEQ_BlockIssuance": ["subsidy", "no-subsidy"],
+    "VH_SEQ_V1SigAuth": ["accepted-whole", "accepted-partial", "rejected"],
     "VH_SEQ_V1SigTimelock": ["accepted", "accepted-at-sig-bound", "accepted-at-uc-bound"],
 }
 # tags whose reachability is part of the property (rules flip exactly at their bounds): not reached => violation
@@ -271,7 +272,7 @@ SEQ_ACCEPT = {"revised-at-proof-height", "new-proof-height-at-bound", "minimal-w
               "accepted-at-bound", "accepted-at-maturity", "v1-last-height", "v1-at-maturity", "v2-first-height", "window-starts-now", "timelock-at-bound", "revised-at-window-start",
               "accepted-at-sig-bound", "accepted-at-uc-bound"}
 SEQ_V1 = ["VH_SEQ_V1FormContract", "VH_SEQ_V1Revision", "VH_SEQ_V1SiafundClaim", "VH_SEQ_V1Resolution", "VH_SEQ_V1SameTxnDouble", "VH_SEQ_V1MultisigDistinctKeys",
-          "VH_SEQ_V1ProofAndExpirySameBlock", "VH_SEQ_MinerPayouts", "VH_SEQ_V1SigTimelock", "VH_SEQ_BlockIssuance"]
+          "VH_SEQ_V1ProofAndExpirySameBlock", "VH_SEQ_MinerPayouts", "VH_SEQ_V1SigTimelock", "VH_SEQ_BlockIssuance", "VH_SEQ_V1SigAuth"]
 SEQ_H1 = ["harness/cons/v1seq.go", "harness/common/cons_world.go", "harness/common/cons_support.go"]
 SEQ_CUTS = ["TransactionWeight/V2TransactionWeight: an arbitrary value (uninterpreted)", "FileContractTax / V2FileContractTax: uninterpreted tax(value) <= value (the same function in validation and application)",
             "StorageProofLeafIndex: arbitrary index below the leaf count", "V1Currency inside hash pre-images: fixed-width injective code (real variable-length code checked in C11)",
@@ -300,10 +301,10 @@ PROPS["C02"] = {
     "stubs": SEQ_CUTS, "assumptions": SEQ_ASSUME,
 }
 PROPS["C03"] = {
-    "runs": seq_check(["VH_SEQ_V2InputAuth", "VH_SEQ_V2RenewalAuth", "VH_SEQ_V2ReviseRevise", "VH_SEQ_V1MultisigDistinctKeys"]),
+    "runs": seq_check(["VH_SEQ_V2InputAuth", "VH_SEQ_V2RenewalAuth", "VH_SEQ_V2ReviseRevise", "VH_SEQ_V1MultisigDistinctKeys", "VH_SEQ_V1SigAuth"]),
     "tv_runs": {"quick": 0, "thorough": 0},
-    "bounds": {"quick": "accepted => (policy address == parent address, signature valid for THIS transaction's signature hash under the revealed key; contract / revision / renewal signed by the keys of the contract as it currently stands incl. after an earlier in-block revision; attestation signed by its key; Foundation address change only with an input of the management address); public-key policies; v1: a 2-of-2 unlock condition with two whole-transaction signatures is accepted only if they use distinct key indices; content binding of the signature hashes themselves is C12", "thorough": "same"},
-    "outside": ["v1 partial covered-field signatures at validator level (their hashes are covered in C12)", "threshold / hash / unlock-condition policies at validator level (policy semantics: C14)"],
+    "bounds": {"quick": "accepted => (policy address == parent address, signature valid for THIS transaction's signature hash under the revealed key; contract / revision / renewal signed by the keys of the contract as it currently stands incl. after an earlier in-block revision; attestation signed by its key; Foundation address change only with an input of the management address); public-key policies; v1: a 2-of-2 unlock condition with two whole-transaction signatures is accepted only if they use distinct key indices; an accepted v1 1-of-1 input names its parent and key, its unlock conditions hash to the parent's address and its signature verifies under the listed key over the whole-transaction hash or over the partial hash of exactly its covered fields; content binding of the signature hashes themselves is C12", "thorough": "same"},
+    "outside": ["v1 signatures covering other field lists than one input + one output, multi-input v1 transactions at validator level (what the hashes bind: C12)", "threshold / hash / unlock-condition policies at validator level (policy semantics: C14)"],
     "stubs": SEQ_CUTS + ["ideal signatures: sig valid <=> sig == SIG(pk, msg)"], "assumptions": SEQ_ASSUME,
 }
 PROPS["C07"] = {
